@@ -172,7 +172,13 @@ class Sched:
             if ins and ins[0] in ('LOAD_DEREF', 'STORE_DEREF') and ins[1] in self.CELLS:
                 if getattr(self.tls, 'armed', True) and self.started:
                     kind = 'rd' if ins[0] == 'LOAD_DEREF' else 'wr'
-                    self.yield_point((kind, ins[1]))
+                    try:
+                        self.yield_point((kind, ins[1]))
+                    except (Deadlock, SchedTimeout):
+                        # never raise out of a trace function (CPython 3.12 can crash when an exception leaves an opcode trace
+                        # hook while the frame is handling another exception): once a deadlock is flagged the thread runs on
+                        # unscheduled until its next queue / thread operation, which raises in ordinary code
+                        return self.local_tracer
                     val = frame.f_locals.get(ins[1]) if kind == 'rd' else None
                     self.emit(kind + '_' + ins[1], (bool(val) if ins[1] == 'shutdown' else (val is not None)) if kind == 'rd' else None)
         return self.local_tracer
@@ -220,8 +226,6 @@ class ShimQueue:
         item = self.items.popleft()
         if self.shared:
             self.s.emit('get', item)
-            # the consumer holds the item but has not handed it on yet: other threads may run in this window
-            self.s.yield_point('got')
         return item
 
     def get_nowait(self):
